@@ -431,7 +431,12 @@ class DataFrame:
         order = stable_sort(list(range(len(self.rows))), key=lambda k: self.rows[k][i], reverse=not ascending)
         return DataFrame([self.rows[k] for k in order], columns=list(self.columns), index=[self.index[k] for k in order])
 
-    def drop_duplicates(self, subset=None):
+    def drop_duplicates(self, subset=None, keep='first', ignore_index=False, inplace=False):
+        if keep != 'first' or inplace:
+            from .symx import ShimUnsupported
+            raise ShimUnsupported('drop_duplicates(keep/inplace)')
+        if isinstance(subset, str):
+            subset = [subset]
         cols = [self.columns.index(c) for c in (subset or self.columns)]
         keep, seen = [], []
         for i, r in enumerate(self.rows):
@@ -439,7 +444,7 @@ class DataFrame:
             if not any(all(a == b for a, b in zip(k, s_)) for s_ in seen):
                 seen.append(k)
                 keep.append(i)
-        return DataFrame([self.rows[i] for i in keep], columns=list(self.columns), index=[self.index[i] for i in keep])
+        return DataFrame([self.rows[i] for i in keep], columns=list(self.columns), index=None if ignore_index else [self.index[i] for i in keep])
 
     def head(self, n=5):
         return DataFrame(self.rows[:n], columns=list(self.columns), index=self.index[:n])
